@@ -394,6 +394,23 @@ func initLib() {
 		return v
 	}
 
+	// ---- bytes.Compare / bytes.Equal: equality of contents is equality of the abstract byte strings
+	bytesOfSlice := func(vc *VC, st *State, s Term) Term {
+		arr := tSelect(vc.heapGet(st.heap, vc.arrComp(types.Typ[types.Uint8])), mk("(sl-ref "+s.S+")", sortRef))
+		return vc.bytesOf(arr, mk("(sl-off "+s.S+")", vc.idxSort()), mk("(sl-len "+s.S+")", vc.idxSort()))
+	}
+	libTable["bytes.Compare"] = func(vc *VC, fr *Frame, st *State, a []Val, at []types.Type, rt types.Type, pos token.Pos) Val {
+		vc.usedLib("bytes.Compare")
+		r := vc.freshVal(st, "bcmp", rt)
+		zero := vc.intConst(newBig(0), 64)
+		vc.assume(st, tEq(tEq(r.T, zero), tEq(bytesOfSlice(vc, st, a[0].T), bytesOfSlice(vc, st, a[1].T))))
+		return r
+	}
+	libTable["bytes.Equal"] = func(vc *VC, fr *Frame, st *State, a []Val, at []types.Type, rt types.Type, pos token.Pos) Val {
+		vc.usedLib("bytes.Equal")
+		return Val{T: vc.define("beq", tEq(bytesOfSlice(vc, st, a[0].T), bytesOfSlice(vc, st, a[1].T)))}
+	}
+
 	// ---- common.Hash / common.Address: Bytes() is a slice of a copy of the array value
 	for _, tn := range []string{"Hash", "Address"} {
 		libTable["(com.tuntun.rangers/node/src/common."+tn+").Bytes"] = func(vc *VC, fr *Frame, st *State, a []Val, at []types.Type, rt types.Type, pos token.Pos) Val {
